@@ -407,6 +407,269 @@ Example chain_example :
   = Some [FCaller; FTask 0; FTask 1; FTask 1; FTask 2; FTask 3; FTask 4; FHelper 1]%Z.
 Proof. reflexivity. Qed.
 
+(* ------------------------------------------------------------------------------------------ *)
+(** ** The same failed task observed several times                                             *)
+
+(* the statement's reading of one observer: the error is handled by the innermost reader level that
+   has a handler, else it reaches the driver; whoever catches it sees one frame per reader level
+   from itself down, in call order, followed by the frames [fs] of the failed task -- and nothing
+   of any other observer.  (handled at or below level j?, frames from level j down) *)
+Fixpoint reader_view (k j : Z) (rs : observer) (fs : list frame) : bool * list frame :=
+  match rs with
+  | [] => (false, fs)
+  | (_, c) :: rs' =>
+    let (hd, v) := reader_view k (j + 1)%Z rs' fs in
+    if hd then (true, v) else (c, FReader k j :: v)
+  end.
+
+Definition observer_view (k : Z) (rs : observer) (fs : list frame) : list frame :=
+  let (hd, v) := reader_view k 0%Z rs fs in if hd then v else FCaller :: v.
+
+Fixpoint views (k : Z) (os : list observer) (fs : list frame) : list (list frame) :=
+  match os with [] => [] | o :: os' => observer_view k o fs :: views (k + 1)%Z os' fs end.
+
+(* reader levels j, j+1, ..., j+n-1 of observer k *)
+Fixpoint reader_frames (k j : Z) (n : nat) : list frame :=
+  match n with O => [] | S n' => FReader k j :: reader_frames k (j + 1)%Z n' end.
+
+Definition no_handler (rs : observer) : bool := forallb (fun r => negb (snd r)) rs.
+
+Lemma reader_view_plain : forall k rs j fs, no_handler rs = true ->
+  reader_view k j rs fs = (false, reader_frames k j (List.length rs) ++ fs).
+Proof.
+  induction rs as [|[h c] rs IH]; intros j fs H; simpl; [reflexivity|].
+  unfold no_handler in H. simpl in H. apply andb_true_iff in H. destruct H as [Hc H].
+  rewrite (IH (j + 1)%Z fs H). destruct c; [discriminate | reflexivity].
+Qed.
+
+(* observers without any handler: the driver sees its own frame, one frame per reader level in
+   call order, then the failed task's frames *)
+Theorem observer_view_plain : forall k rs fs, no_handler rs = true ->
+  observer_view k rs fs = FCaller :: reader_frames k 0%Z (List.length rs) ++ fs.
+Proof. intros k rs fs H. unfold observer_view. rewrite (reader_view_plain k rs 0%Z fs H). reflexivity. Qed.
+
+(* the innermost reader handles it: it sees its own frame and the failed task's, whatever is above *)
+Theorem observer_view_innermost : forall k j h fs, reader_view k j [(h, true)] fs = (true, FReader k j :: fs).
+Proof. reflexivity. Qed.
+
+(* the exception object went through a task: _task is set *)
+Definition task_set (e : exn_st) : Prop := exists s, pr e = Prepared s true.
+
+Lemma glued_task_set : forall e, glued e -> task_set e.
+Proof. intros e G. exists (tb e). exact G. Qed.
+
+Lemma glued_saved : forall e, glued e -> saved_tb e = Some (tb e).
+Proof. intros e G. unfold saved_tb. rewrite G. reflexivity. Qed.
+
+(* observed right after it failed (every level of a chain is), the repaired value() is the old one *)
+Lemma value_raises_of_glued : forall rep e, glued e -> value_raises_of rep (saved_tb e) e = value_raises e.
+Proof.
+  intros rep [t p] G. unfold glued in G. simpl in G. subst p. destruct rep; reflexivity.
+Qed.
+
+Lemma value_raises_of_rep : forall s0 e, task_set e ->
+  value_raises_of true (Some s0) e
+  = mkE (FInt I_value :: FInt I_raise_if_error :: FInt I_reraise :: s0) (Prepared s0 true).
+Proof. intros s0 [t p] [s H]. simpl in H. subst p. reflexivity. Qed.
+
+Lemma arrive_of_rep : forall f h d s0 e, task_set e -> hidden f = false ->
+  pr (arrive_of true f h d (Some s0) e) = Prepared s0 true /\
+  user_frames (tb (arrive_of true f h d (Some s0) e)) = f :: user_frames s0.
+Proof.
+  intros f h d s0 e He Hf. unfold arrive_of. rewrite (value_raises_of_rep s0 e He).
+  destruct h, d; simpl; unfold user_frames; simpl; rewrite Hf; simpl; auto.
+Qed.
+
+Lemma readers_spec : forall k rs j e s0, task_set e ->
+  match readers true k j rs (Some s0) e, reader_view k j rs (user_frames s0) with
+  | Handled seen e1, (true, v) => user_frames seen = v /\ task_set e1
+  | Failed e1, (false, v) =>
+    match rs with [] => e1 = e | _ => glued e1 /\ user_frames (tb e1) = v end
+  | _, _ => False
+  end.
+Proof.
+  induction rs as [|[h c] rs IH]; intros j e s0 He.
+  - simpl. reflexivity.
+  - specialize (IH (j + 1)%Z e s0 He). cbn [readers reader_view].
+    destruct (readers true k (j + 1)%Z rs (Some s0) e) as [e1|seen e1];
+      destruct (reader_view k (j + 1)%Z rs (user_frames s0)) as [[|] v] eqn:RV; try contradiction.
+    + (* the level below failed *)
+      destruct rs as [|r rs'].
+      * simpl in IH. subst e1. simpl in RV. inversion RV. subst v.
+        destruct (arrive_of_rep (FReader k j) h true s0 e He eq_refl) as [Hp Hu].
+        destruct c.
+        -- split; [|eexists; exact Hp]. exact Hu.
+        -- match goal with |- glued (leave_task ?a) /\ _ => destruct (leave_task_glued a) as [G U] end.
+           { right. left. eexists. exact Hp. }
+           split; [exact G|]. rewrite U. exact Hu.
+      * destruct IH as [G1 U1].
+        rewrite (glued_saved e1 G1).
+        destruct (arrive_of_rep (FReader k j) h false (tb e1) e1 (glued_task_set e1 G1) eq_refl) as [Hp Hu].
+        destruct c.
+        -- split; [|eexists; exact Hp]. rewrite Hu, U1. reflexivity.
+        -- match goal with |- glued (leave_task ?a) /\ _ => destruct (leave_task_glued a) as [G U] end.
+           { right. left. eexists. exact Hp. }
+           split; [exact G|]. rewrite U, Hu, U1. reflexivity.
+    + exact IH.
+Qed.
+
+Lemma observe1_spec : forall drv k rs e s0, task_set e ->
+  user_frames (fst (observe1 true drv k rs (Some s0) e)) = observer_view k rs (user_frames s0) /\
+  task_set (snd (observe1 true drv k rs (Some s0) e)).
+Proof.
+  intros drv k rs e s0 He. unfold observe1, observer_view.
+  generalize (readers_spec k rs 0%Z e s0 He).
+  destruct (readers true k 0%Z rs (Some s0) e) as [e1|seen e1];
+    destruct (reader_view k 0%Z rs (user_frames s0)) as [[|] v] eqn:RV; try contradiction.
+  - destruct rs as [|r rs'].
+    + intros E. subst e1. simpl in RV. inversion RV. subst v. simpl.
+      destruct (arrive_of_rep FCaller drv true s0 e He eq_refl) as [Hp Hu]. simpl.
+      split; [|eexists; exact Hp].
+      (* reader_view of [] *)
+      exact Hu.
+    + intros [G1 U1]. rewrite (glued_saved e1 G1).
+      destruct (arrive_of_rep FCaller drv false (tb e1) e1 (glued_task_set e1 G1) eq_refl) as [Hp Hu]. simpl.
+      split; [|eexists; exact Hp]. rewrite Hu, U1. reflexivity.
+  - intros [U T]. simpl. auto.
+Qed.
+
+Lemma observe_seq_spec : forall drv os k e s0, task_set e ->
+  map user_frames (observe_seq true drv k os (Some s0) e) = views k os (user_frames s0).
+Proof.
+  induction os as [|o os IH]; intros k e s0 He; simpl; [reflexivity|].
+  destruct (observe1_spec drv k o e s0 He) as [U T].
+  destruct (observe1 true drv k o (Some s0) e) as [seen e']. simpl in *.
+  rewrite U, (IH (k + 1)%Z e' s0 T). reflexivity.
+Qed.
+
+(* every observer of the failed task lvl_0 -- the first and every later one, reader tasks that let
+   the error propagate or that handle it, awaiting or asking synchronously, run from a plain caller
+   or from a task -- sees its own chain in call order followed by the failed task's frames *)
+Theorem every_observer_sees_its_own_chain : forall ms b drv os,
+  map (option_map user_frames) (observations ms b drv os) =
+  match expected 0%Z ms b with
+  | None => map (fun _ => None) os
+  | Some fs => map Some (views 0%Z os fs)
+  end.
+Proof.
+  intros ms b drv os. unfold observations, observations_with.
+  generalize (task_result_spec ms 0%Z b).
+  destruct (task_result 0%Z ms b) as [e|]; destruct (expected 0%Z ms b) as [fs|]; try contradiction.
+  - intros [G U]. rewrite (glued_saved e G), map_map.
+    rewrite <- U, <- (observe_seq_spec drv os 0%Z e (tb e) (glued_task_set e G)).
+    rewrite !map_map. reflexivity.
+  - intros _. rewrite map_map. reflexivity.
+Qed.
+
+(* The code as found (nothing restored in raise_if_error): a reader task that lets the error
+   propagate stores its own glued traceback on the shared exception object (_accept_error), and
+   every later observer of the failed task gets that reader's frame although the reader is not in
+   its call chain -- here a later look by the driver itself. *)
+Theorem shared_error_as_found_leaks_reader : forall ms b drv h fs, expected 0%Z ms b = Some fs ->
+  map (option_map user_frames) (observations_with false ms b drv [[(h, false)]; []])
+  = [Some (FCaller :: FReader 0 0 :: fs); Some (FCaller :: FReader 0 0 :: fs)].
+Proof.
+  intros ms b drv h fs E. unfold observations_with.
+  generalize (task_result_spec ms 0%Z b). rewrite E.
+  destruct (task_result 0%Z ms b) as [[t p]|]; [|contradiction].
+  intros [G U]. unfold glued in G. simpl in G, U. subst p.
+  destruct h, drv; simpl; unfold user_frames; simpl; fold (user_frames t); rewrite U; reflexivity.
+Qed.
+
+(* ... and only then: as long as no reader task fails with the error (each observer is the driver
+   itself or has a handler in its innermost reader), the code as found behaves like the repaired one *)
+Fixpoint innermost_catches (rs : observer) : bool :=
+  match rs with
+  | [] => true
+  | (_, c) :: rs' => match rs' with [] => c | _ => innermost_catches rs' end
+  end.
+
+Lemma restore_same : forall s0 t e, pr e = Prepared s0 t -> restore true (Some s0) e = e.
+Proof. intros s0 t [tb0 p] H. simpl in H. subst p. reflexivity. Qed.
+
+Lemma arrive_of_pr_found : forall f h d sv e, pr (arrive_of false f h d sv e) = pr e.
+Proof.
+  intros f h d sv [t p]. unfold arrive_of, value_raises_of, restore, reraise.
+  destruct h, d, p as [|s [|]]; reflexivity.
+Qed.
+
+Lemma arrive_of_same : forall f h d s0 t e, pr e = Prepared s0 t ->
+  arrive_of false f h d (Some s0) e = arrive_of true f h d (Some s0) e.
+Proof.
+  intros f h d s0 t e H. unfold arrive_of, value_raises_of.
+  rewrite (restore_same s0 t e H). reflexivity.
+Qed.
+
+Lemma readers_cons : forall rep k j h c rs sF e,
+  readers rep k j ((h, c) :: rs) sF e =
+  match readers rep k (j + 1)%Z rs sF e with
+  | Handled s e1 => Handled s e1
+  | Failed e1 =>
+    let direct := match rs with [] => true | _ => false end in
+    let a := arrive_of rep (FReader k j) h direct (if direct then sF else saved_tb e1) e1 in
+    if c then Handled (tb a) a else Failed (leave_task a)
+  end.
+Proof. reflexivity. Qed.
+
+Lemma readers_same : forall k rs j s0 t e, pr e = Prepared s0 t -> innermost_catches rs = true ->
+  readers false k j rs (Some s0) e = readers true k j rs (Some s0) e /\
+  match readers false k j rs (Some s0) e with
+  | Failed e1 => rs = [] /\ e1 = e
+  | Handled _ e1 => pr e1 = Prepared s0 t
+  end.
+Proof.
+  induction rs as [|[h c] rs IH]; intros j s0 t e H C.
+  - simpl. auto.
+  - destruct rs as [|r rs'].
+    + simpl in C. subst c. simpl.
+      rewrite (arrive_of_same (FReader k j) h true s0 t e H). split; [reflexivity|].
+      rewrite <- (arrive_of_same (FReader k j) h true s0 t e H), arrive_of_pr_found. exact H.
+    + assert (C' : innermost_catches (r :: rs') = true) by exact C.
+      destruct (IH (j + 1)%Z s0 t e H C') as [E M].
+      rewrite (readers_cons false), (readers_cons true). rewrite <- E.
+      destruct (readers false k (j + 1)%Z (r :: rs') (Some s0) e) as [e1|seen e1].
+      * destruct M as [M _]. discriminate.
+      * split; [reflexivity | exact M].
+Qed.
+
+Lemma observe_seq_same : forall drv os k s0 t e, pr e = Prepared s0 t ->
+  forallb innermost_catches os = true ->
+  observe_seq false drv k os (Some s0) e = observe_seq true drv k os (Some s0) e.
+Proof.
+  induction os as [|o os IH]; intros k s0 t e H C; [reflexivity|].
+  simpl in C. apply andb_true_iff in C. destruct C as [Co C].
+  destruct (readers_same k o 0%Z s0 t e H Co) as [E M].
+  cbn [observe_seq]. unfold observe1. rewrite <- E.
+  destruct (readers false k 0%Z o (Some s0) e) as [e1|seen e1].
+  - destruct M as [Mo Me]. subst o e1.
+    rewrite <- (arrive_of_same FCaller drv true s0 t e H).
+    rewrite (IH (k + 1)%Z s0 t (arrive_of false FCaller drv true (Some s0) e)); [reflexivity | | exact C].
+    rewrite arrive_of_pr_found. exact H.
+  - rewrite (IH (k + 1)%Z s0 t e1 M C). reflexivity.
+Qed.
+
+Theorem as_found_agrees_without_failing_reader : forall ms b drv os,
+  forallb innermost_catches os = true ->
+  observations_with false ms b drv os = observations_with true ms b drv os.
+Proof.
+  intros ms b drv os C. unfold observations_with.
+  generalize (task_result_spec ms 0%Z b).
+  destruct (task_result 0%Z ms b) as [e|]; [|reflexivity].
+  destruct (expected 0%Z ms b) as [fs|]; [|contradiction].
+  intros [G _]. rewrite (glued_saved e G).
+  rewrite (observe_seq_same drv os 0%Z (tb e) true e G C). reflexivity.
+Qed.
+
+Example observe_example :
+  map (option_map user_frames)
+      (observations [(MPass, HAwait)] (BRaise 1) HSync
+                    [[(HAwait, false)]; [(HSync, false); (HAwait, true)]; []; [(HAwait, false); (HSync, false)]])
+  = [Some [FCaller; FReader 0 0; FTask 0; FTask 1; FHelper 1];
+     Some [FReader 1 1; FTask 0; FTask 1; FHelper 1];
+     Some [FCaller; FTask 0; FTask 1; FHelper 1];
+     Some [FCaller; FReader 3 0; FReader 3 1; FTask 0; FTask 1; FHelper 1]]%Z.
+Proof. reflexivity. Qed.
+
 (* ========================================================================================== *)
 (** * Part C — creator chain                                                                   *)
 
